@@ -644,6 +644,13 @@ def _from_elem(ex, fn, args):
     except Exception:
         pass
     alloc_request(ex, args[1], esz, 'vec![x; n]')
+    if n is None and not ex.sym_len_ok and ex.path is not None and ex.path.model is not None:
+        # concolic concretisation: follow the guiding model's value for the count (other values are found by the coverage loop)
+        val = ex.path.model.eval(args[1], model_completion=True)
+        ex.path.pc.append(args[1] == val)
+        n = val.as_long()
+        if n * max(esz, 1) > ex.alloc_budget:
+            raise PathEnd('alloc', 'vec![x; n] requests %d bytes' % (n * max(esz, 1)))
     if n is None:
         if ex.sym_len_ok:
             nn = args[1] if args[1].size() == 64 else z3.ZeroExt(64 - args[1].size(), args[1])
